@@ -8,6 +8,8 @@ CONSTANTS
   Roles = {"server", "client"}
   Modes = {"receptor", "dns", "dns_noname"}
   StreamSrcs <- StreamSrcsQuick
+  MaxTick = 1
+  KF_TimeFrozenAtCreation = FALSE
   KF_DigestCachedAcrossCalls = FALSE
   KF_ColonSplit = FALSE
   DumpFile = "vectors.ndjson"
@@ -23,3 +25,5 @@ INVARIANTS
   StreamCodeIsProp
   HistoryIndependent
   PinnedThenUnpinnedRefused
+  ValidityJudgedAtHandshake
+  ExpiryAndOnsetObserved
